@@ -26,6 +26,15 @@ CHECKS = {
  "C07": ("model-based testing of the REPEAT protocol: enumeration of every string mnemonic x width x DF x prefix x every CX in 0..=64 x 6 address configurations (disjoint, DS!=ES, overlapping both ways, offset wrap, 2^20 wrap) x constructed first-(non-)match positions, plus proptest-generated string cases, each driven to completion exactly as the driver does and compared with a reference string model (registers, flags, whole memory)",
          "exploration; CX 0..=64 enumerated for every prefix/mnemonic/width/DF combination (larger CX generated), termination position of REPE/REPNE placed by construction, iteration cap CX+2 turns a runaway REPEAT into a violation",
          "trusted: reference string model (DS:SI source, ES:DI destination, little-endian words, CMPS = source-destination, SCAS = accumulator-destination, REP protocol from the manual); a word element straddling offset FFFFh may use either reading", "3/C07"),
+ "C09": ("proptest-driven search over the complete instruction-shape enumeration x adversarial machine states (registers from the boundary set, segments FFFFh/F001h/FFF0h, operand addresses and SS:SP/DS:SI/ES:DI/DS:BX+AL constructed onto the 2^20 and 2^16 wrap points, counts 0..255, divisors 0/1/-1, empty/non-empty call stack) in a build with integer-overflow checks, panics captured with catch_unwind, every changed memory byte compared with the reference model's wrapped addresses",
+         "exploration; every shape of the enumerator is executed several times (quick) / hundreds of times (thorough) in adversarial states; totality = no panic and a defined outcome; 'wraps rather than indexes outside' is decided by equality of the whole memory with the wrapped reference, not only by absence of a bounds panic",
+         "trusted: shape enumerator (cross-checked against the terminals of the working tree's grammar), reference machine model; value-level disagreements are left to C01-C07", "3/C09"),
+ "C10": ("exhaustive enumeration of the finite shape set of the source grammar (every mnemonic spelling x every operand-kind alternative x representative registers x 15 addressing shapes x 5 override choices, in both cases and three radices) plus every directive and print form, each assembled and every emitted line fed to the downstream parser it is destined for; proptest-generated whole programs are additionally run",
+         "exploration, exhaustive over the enumerated shape set (about 24 000 programs per run); accept => DataParser/Interpreter/print parser accept; a documented form that the assembler rejects is reported as well",
+         "trusted: shape enumerator (its vocabulary is compared at run time with the terminals extracted from the working tree's preprocessor.lalrpop; unknown terminals are listed in the evidence)", "3/C10"),
+ "C17": ("model-based testing through the CLI: proptest-generated programs establish a random machine state and print it (in the program and at an INT 3 prompt); stdout is tokenised back into register/flag/memory events and compared with the reference machine; prints removed vs present must end in the same state; ranges leaving the 1 MiB space must be reported",
+         "exploration; about 10^3 (quick) / 2*10^4 (thorough) CLI runs with ~10 print observations each, boundary range lengths and DS-relative ranges constructed, output format (four upper-case hex digits, 0/1 flags, two-digit cells, 16 per row) enforced by the parser",
+         "trusted: reference machine for MOV/PUSH/POPF/SAHF/flag control, output tokenizer; layout (tabs/blank separators) normalised", "3/C17"),
 }
 
 REASON_WIP = "check not built yet in this revision of /verif (work in progress; see DESIGN.md section 7 for the order of work)"
